@@ -178,6 +178,42 @@ pub fn cmd_cw(a: &[Sx]) -> Result<String, String> {
 	Ok(out)
 }
 
+/// cwh START <the arguments of cw>: `cw` with the starting length of the encode loops' output buffer (hook H3)
+/// set to START for the run (the crate's value is 32768), so that small blocks already make the deflate / bzip2 /
+/// xz loops grow their buffer several times. Same output as `cw`.
+pub fn cmd_cwh(a: &[Sx]) -> Result<String, String> {
+	let start: usize = a[0].int()?;
+	if start == 0 {
+		return Err("START must be >= 1".into());
+	}
+	verif_h3::set_start_len(start);
+	let _ = verif_h3::take_trace();
+	let r = std::panic::catch_unwind(std::panic::AssertUnwindSafe(|| cmd_cw(&a[1..])));
+	verif_h3::set_start_len(32 * 1024);
+	let _ = verif_h3::take_trace();
+	match r {
+		Ok(r) => r,
+		Err(e) => std::panic::resume_unwind(e),
+	}
+}
+
+/// blockdec CODEC xDATA...: the data of container blocks decompressed by the compression crates' own decoders
+/// (flate2 / bzip2 / xz2 / zstd read adapters, snap's raw decoder on the block without its 4 trailing CRC bytes),
+/// not by the crate under test. -> (ok (dec xPAYLOAD) | bad ...)
+pub fn cmd_blockdec(a: &[Sx]) -> Result<String, String> {
+	let codec = a[0].atom()?.to_owned();
+	let mut out = String::from("(ok");
+	for d in &a[1..] {
+		let data = d.bytes()?;
+		match crate::codecloop::decode(&codec, &data) {
+			Some(p) => out.push_str(&format!(" (dec {})", hex(&p))),
+			None => out.push_str(" bad"),
+		}
+	}
+	out.push(')');
+	Ok(out)
+}
+
 pub(crate) struct MetaOut(pub(crate) Vec<(String, Vec<u8>)>);
 impl<'de> serde::Deserialize<'de> for MetaOut {
 	fn deserialize<D: serde::Deserializer<'de>>(d: D) -> Result<Self, D::Error> {
